@@ -28,6 +28,38 @@ theorem C03A_sync (p : Params) (hq : Sync.NoQuirks p) (_hsm : SmallSketch p) (hc
   exactC03_run_sync hq (fun _ _ => True) (fun _ _ _ _ => True.intro)
     (fun s op _ _ => maintOk_none hq hcap s op) h {} {} True.intro (coupledRS_init p)
 
+/-- The bounded variant: with `max_capacity = c`, the same holds for every history whose
+inserts weigh at most `c` in total: the run-local weighted size never exceeds what has been
+inserted, so every candidate is admitted at once (`has_enough_capacity`), nothing is ever
+rejected (the TinyLFU comparison and the "too big" test are never reached) and
+`evict_lru_entries` has nothing to do. -/
+theorem C03A_sync_large_capacity (p : Params) (hq : Sync.NoQuirks p) (hsm : SmallSketch p)
+    {c : Nat} (hcap : p.cap = some c) (h : List Op)
+    (hle : Spec.totalInserted p.weigh (Sync.trace p h) ≤ c) :
+    Spec.exactC03 .sync p.ttl p.tti {} (Sync.trace p h) = true := by
+  unfold Sync.trace at hle ⊢
+  rw [totalInserted_run_sync] at hle
+  exact exactC03_run_sync hq (RoomInv p c) (fun _ _ _ hi => roomInv_step hq hsm hcap hi)
+    (fun _ _ _ hi => roomInv_ok hq hsm hcap hi) h {} {} (roomInv_init p c h hle)
+    (coupledRS_init p)
+
+/-- Both together: the part-A conjunct of the C03 oracle (`Spec.oracleC03 .sync`), for every
+configuration and every history. -/
+theorem C03A_sync_oracle (p : Params) (hq : Sync.NoQuirks p) (hsm : SmallSketch p) (h : List Op) :
+    (match p.cap with
+     | none => Spec.exactC03 .sync p.ttl p.tti {} (Sync.trace p h)
+     | some c =>
+       if Spec.totalInserted p.weigh (Sync.trace p h) ≤ c then
+         Spec.exactC03 .sync p.ttl p.tti {} (Sync.trace p h)
+       else true) = true := by
+  cases hcap : p.cap with
+  | none => exact C03A_sync p hq hsm hcap h
+  | some c =>
+    dsimp only
+    split
+    · rename_i hle; exact C03A_sync_large_capacity p hq hsm hcap h hle
+    · rfl
+
 /-- C17, concurrent cache: a cache built without `max_capacity` never evicts for size.  In
 *any* state (whatever is queued), a maintenance run — the explicit `sync()` as well as the
 housekeeping `try_sync` that `insert`, `get` and `invalidate` perform — first applies every
@@ -78,6 +110,14 @@ example : Spec.exactC03 .sync (some 7) (some 3) {} (Sync.trace
      .get 3, .invAll, .iter, .ins 6 60, .adv 1, .get 6]) = true := by
   decide +kernel
 
+/-- With a capacity that the inserted weight never reaches (weights 0..3, total 9 ≤ 10), the
+whole C03 oracle of the concurrent cache. -/
+example : Spec.oracleC03 .sync (some 10) (some 7) none (fun _ v => v % 4) (Sync.trace
+    { cap := some 10, ttl := some 7, hasWeigher := true, w := fun _ v => v % 4 }
+    [.adv 600000000, .ins 1 1, .ins 2 2, .adv 3, .get 1, .ins 1 3, .iter, .sync, .adv 4, .has 2,
+     .get 1, .inv 1, .ins 3 2, .ins 1 1, .iter, .get 3, .sync, .get 1]) = true := by
+  decide +kernel
+
 /-- What the lookups of such a history return: the hit at +2 is queued, so at +4 the idle timer
 (3) has run out in the cache's eyes; `sync` applies the hit and the entry is back (the oracle
 demands it from then on); key 2 is gone for good. -/
@@ -124,5 +164,7 @@ end Props
 end MiniMoka
 
 #print axioms MiniMoka.Props.C03A_sync
+#print axioms MiniMoka.Props.C03A_sync_large_capacity
+#print axioms MiniMoka.Props.C03A_sync_oracle
 #print axioms MiniMoka.Props.C17_no_capacity_never_evicts_sync
 #print axioms MiniMoka.Props.C17_no_capacity_never_evicts_sync_trace
